@@ -190,14 +190,27 @@ fn disarm(domain: &str) -> usize {
     }
 }
 
+struct Dry {
+    muts: Vec<String>,
+    twin: Value,
+    ret: String,
+    /// per entity: number of successful commands the op itself stores, state / objects right after the op
+    ents: HashMap<String, (usize, Value, Value)>,
+}
+
 /// Number and kinds of mutations `op` performs in the current state (dry run on a fork).
-fn dry_run(m: &Main, domain: &str, op: &str, with_pump: bool) -> (Vec<String>, Value, String) {
+fn dry_run(m: &Main, domain: &str, op: &str, with_pump: bool) -> Dry {
     let f = fork(m.sys.scratch(), "fault-dry");
     let mut s = sys::Sys::open(f, true, "dry-disk", &m.cfg, false);
     let _ = obs_json(&mut s); // prime seen_cmds/canon
     krill::verif::kvfault::start_recording();
     krill::verif::fault::start_recording();
     let (_, o) = s.exec(op);
+    let o: Value = serde_json::from_str(&o).unwrap_or(Value::Null);
+    let mut ents = HashMap::new();
+    for e in entity_of(op) {
+        ents.insert(e.clone(), (succ_cmds(&o, &[e.clone()]), proj(&o, "cas", &[e.clone()]), proj(&o, "objects", &[e.clone()])));
+    }
     if with_pump { s.exec("pump"); }
     let kv = krill::verif::kvfault::take_log();
     let fs = krill::verif::fault::take_log();
@@ -209,9 +222,9 @@ fn dry_run(m: &Main, domain: &str, op: &str, with_pump: bool) -> (Vec<String>, V
     } else {
         fs.iter().map(|(k, p, _)| format!("{k}:{}", canon_path(&p.display().to_string().replace(&root, "")))).collect()
     };
-    let ret = serde_json::from_str::<Value>(&o).ok().and_then(|v| v.get("ret").and_then(|r| r.as_str()).map(|s| s.to_string())).unwrap_or_default();
+    let ret = o.get("ret").and_then(|r| r.as_str()).map(|s| s.to_string()).unwrap_or_default();
     let fin = obs_json(&mut s);
-    (muts, semantic(&fin), ret)
+    Dry { muts, twin: semantic(&fin), ret, ents }
 }
 
 /// `/data/cas/a/command-3.json` → `cas/a/command-N.json`; task keys lose their time stamp.
@@ -230,11 +243,15 @@ fn canon_path(p: &str) -> String {
     out
 }
 
+fn ret_of(o: &Value) -> String {
+    o.get("ret").and_then(|r| r.as_str()).map(|s| s.to_string()).unwrap_or_default()
+}
+
 fn fault_line(m: &mut Main, mode: &str, domain: &str, which: &str, op: &str, out: &mut dyn Write, rng: &mut Rng) {
-    let with_pump = true;
     let ents = entity_of(op);
     let before = obs_json(&mut m.sys);
-    let (muts, twin, twin_ret) = dry_run(m, domain, op, with_pump);
+    let dry = dry_run(m, domain, op, true);
+    let muts = &dry.muts;
     let cuts: Vec<usize> = match which {
         "all" => (0..muts.len()).collect(),
         "sample" => { if muts.is_empty() { vec![] } else { vec![rng.below(muts.len() as u64) as usize] } }
@@ -244,57 +261,66 @@ fn fault_line(m: &mut Main, mode: &str, domain: &str, which: &str, op: &str, out
         let t_start = std::time::Instant::now();
         let tick = |what: &str| { if std::env::var("FAULT_TIMING").is_ok() { eprintln!("  [{:>6} ms] {what}", t_start.elapsed().as_millis()); } };
         let f = fork(m.sys.scratch(), "fault-cut");
-        tick("forked");
         let mut s = sys::Sys::open(f, true, "cut-disk", &m.cfg, false);
-        tick("opened");
         let _ = obs_json(&mut s);
-        tick("observed");
+        krill::verif::sched::take_exits();
         arm(domain, mode, n);
         let (_, o1) = s.exec(op);
+        let o1: Value = serde_json::from_str(&o1).unwrap_or(Value::Null);
+        let ret1 = ret_of(&o1);
         tick("op done");
-        let ret1 = serde_json::from_str::<Value>(&o1).ok().and_then(|v| v.get("ret").and_then(|r| r.as_str()).map(|s| s.to_string())).unwrap_or_default();
         // the scheduler keeps running until the cut (crash) / after the failed write (once)
         s.exec("pump");
         let sched_exits = krill::verif::sched::take_exits();
         let fired = disarm(domain);
+        // The instant right after the cut: for a crash what a fresh instance finds in storage,
+        // for a single failed write what the still-running instance shows right after the op.
         let mut problems;
-        let after;
-        if mode == "crash" {
-            // restart on the same directory
+        let at_cut: Value;
+        let restarted = mode == "crash" || sched_exits > 0;
+        if restarted {
             let scratch = s.into_scratch();
             let mut s2 = sys::Sys::open(scratch, true, "restart-disk", &m.cfg, false);
-            tick("reopened");
             problems = loads(&s2);
+            let o = obs_json(&mut s2);
             if let Err(e) = s2.startup() { problems.push(format!("startup:{e}")); }
-            after = obs_json(&mut s2);
+            at_cut = if mode == "crash" { o } else { o1.clone() };
             s = s2;
         } else {
             problems = loads(&s);
-            after = obs_json(&mut s);
+            at_cut = o1.clone();
         }
-        // atomicity of the interrupted command, judged on the state right after the cut
-        let log_has = succ_cmds(&serde_json::from_str::<Value>(&o1).unwrap_or(Value::Null), &ents)
-            + if mode == "crash" { 0 } else { 0 };
-        let state_changed = proj(&before, "cas", &ents) != proj(&after, "cas", &ents);
-        let objects_changed = proj(&before, "objects", &ents) != proj(&after, "objects", &ents);
+        tick("restarted");
+        // per entity: how many of the op's commands are in the log, and where state and object set stand
+        let mut ent_rep = Map::new();
+        for e in &ents {
+            let one = [e.clone()];
+            let (total, st_after, ob_after) = dry.ents.get(e).cloned().unwrap_or((0, Value::Null, Value::Null));
+            let n_logged = succ_cmds(&o1, &one);
+            let st = proj(&at_cut, "cas", &one);
+            let ob = proj(&at_cut, "objects", &one);
+            ent_rep.insert(e.clone(), json!({
+                "n_logged": n_logged, "n_total": total,
+                "state_is_before": st == proj(&before, "cas", &one), "state_is_after": st == st_after,
+                "objects_is_before": ob == proj(&before, "objects", &one), "objects_is_after": ob == ob_after,
+            }));
+        }
         // background tasks, then the interrupted request again (unless it was acknowledged)
-        tick("judged");
         s.exec("pump");
-        tick("pumped");
         let mut resubmit = "skipped".to_string();
         if !ret1.starts_with("ok") {
             let (_, o2) = s.exec(op);
-            resubmit = serde_json::from_str::<Value>(&o2).ok().and_then(|v| v.get("ret").and_then(|r| r.as_str()).map(|s| s.to_string())).unwrap_or_default();
+            resubmit = ret_of(&serde_json::from_str(&o2).unwrap_or(Value::Null));
             s.exec("pump");
         }
         tick("resubmitted");
         let fin = semantic(&obs_json(&mut s));
-        let same = fin == twin;
-        let diff = if same { Value::Null } else { json!(first_diff(&twin, &fin, "")) };
+        let same = fin == dry.twin;
+        let diff = if same { Value::Null } else { json!(first_diff(&dry.twin, &fin, "")) };
         let line = format!("faultcut {mode} {domain} {n} :: {op}");
         let obs = json!({
-            "muts": muts, "cut": n, "fired": fired, "sched_exits": sched_exits, "ret": ret1, "twin_ret": twin_ret, "load_problems": problems,
-            "log_has_cmd": log_has > 0, "state_changed": state_changed, "objects_changed": objects_changed,
+            "muts": muts, "cut": n, "fired": fired, "sched_exits": sched_exits, "restarted": restarted,
+            "ret": ret1, "twin_ret": dry.ret, "load_problems": problems, "ents": ent_rep,
             "resubmit": resubmit, "converged": same, "diff": diff,
         });
         writeln!(out, "{line} => {obs}").unwrap();
